@@ -15,7 +15,7 @@ cp /repo/python/numqi/_version.py "$WT/python/numqi/_version.py" 2>/dev/null
 PYTHONPATH="$WT/python" /venv/bin/python "$D/demo.py" >/dev/null 2>&1; demo=$?
 out=$(NUMQI_VERIF_REPO="$WT" /verif/check "$PROP" quick --no-evidence "$@" 2>&1); rc=$?
 git -C /repo worktree remove --force "$WT"
-rm -f /verif/replays/*.json
+# replays are left for the caller to clean (concurrent loops must not delete each other's files)
 n=$(echo "$out" | grep -c "^VIOLATION")
 MISS=$(/venv/bin/python -c "import json;print(int(bool(json.load(open('$D/meta.json')).get('expected_miss'))))")
 echo "$ID property=$PROP demo_with_patch_exit=$demo check_exit=$rc violation_lines=$n expected_miss=$MISS $(echo "$out" | grep '^violation' | sed 's/.*oracle=\([^ ]*\) api=\([^ ]*\).*/\1:\2/' | sort -u | tr '\n' ' ')"
